@@ -695,7 +695,7 @@ def gate_calls(g, ctx):
         for n in names:
             dop = op.replace(".get", ".default.get")
             calls.append({"op": dop, "name": n, "algorithms": ABSENT, "registry": ABSENT})
-            k = ctx.scale(6, 30)
+            k = ctx.scale(4, 30)
             allows = [[n] if isinstance(n, str) else [n, "HS256"]] + rng.sample(fixed, min(len(fixed), 3 if ctx.quick else len(fixed)))
             allows += [g.allow_for([n], universe, rec, rng.random() < 0.1) for _ in range(k)]
             for a in allows:
@@ -707,7 +707,7 @@ def gate_calls(g, ctx):
 def jws_calls(g, ctx):
     rng = g.rng
     calls = []
-    reps = ctx.scale(3, 20)
+    reps = ctx.scale(2, 20)
     for op in JWS_SIGN_OPS + JWS_VERIFY_OPS:
         verify = op in JWS_VERIFY_OPS
         general = op.endswith("general")
@@ -970,9 +970,9 @@ def run(ctx):
     # ---- none
     from joserfc.rfc7518.jws_algs import NoneAlgModel
     none_model = jws.JWSRegistry.algorithms.get("none")
-    for i in range(ctx.scale(200, 3000)):
-        msg = bytes(ctx.rng.randrange(256) for _ in range(ctx.rng.randrange(0, 40)))
-        sig = ctx.rng.choice([b"", b"", msg, bytes(ctx.rng.randrange(256) for _ in range(ctx.rng.randrange(0, 70)))])
+    for i in range(ctx.scale(60, 3000)):
+        msg = bytes(ctx.rng.randrange(256) for _ in range(ctx.rng.randrange(0, 24)))
+        sig = ctx.rng.choice([b"", b"", msg, bytes(ctx.rng.randrange(256) for _ in range(ctx.rng.randrange(0, 40)))])
         key = ctx.rng.choice([K.oct[16], K.oct[64], None, K.rsa])
         for model in (none_model, NoneAlgModel()):
             if model is None:
@@ -998,7 +998,7 @@ def run(ctx):
         ctx.notes.append("the model registered as 'none' is %r" % (none_model,))
 
     # ---- histories on the shared default registries
-    n_hist = ctx.scale(40, 300)
+    n_hist = ctx.scale(30, 300)
     hist_calls = 0
     shared = [pv for pv in pool if pv[0]["registry"] is ABSENT] or pool
     for hno in range(n_hist):
